@@ -436,17 +436,18 @@ func (rs *runState) client(t int, base *gorm.DB) {
 }
 
 type result struct {
-	recs    []rec
-	sres    *sched.Result
-	events  []simdrv.Event
-	pool    []simpool.Event
-	open    simdrv.Counts
-	kvs     string
-	wrote   [][2]string
-	panics  []string
-	trouble string
-	inUse   int
-	fired   map[int]int64 // fault id -> seq of the driver event at which it (first) fired
+	recs      []rec
+	sres      *sched.Result
+	events    []simdrv.Event
+	pool      []simpool.Event
+	open      simdrv.Counts
+	kvs       string
+	wrote     [][2]string
+	panics    []string
+	trouble   string
+	inUse     int
+	closeHung bool          // the end-of-run Close of the statement cache never returned
+	fired     map[int]int64 // fault id -> seq of the driver event at which it (first) fired
 }
 
 func (p Prop) exec(c *Case) (*result, error) {
@@ -528,11 +529,24 @@ func (p Prop) exec(c *Case) (*result, error) {
 		return res, nil
 	}
 	// end of run: close every cache instance, then wait for the closers
-	for _, pd := range rs.pdbs {
-		pd.Close()
-	}
-	if cs, ok := e.DB.Config.ConnPool.(*gorm.PreparedStmtDB); ok {
-		cs.Close()
+	// (every task has returned: nothing runs concurrently with these calls, so a Close
+	// that does not come back is waiting for a lock nobody will release)
+	closed := make(chan struct{})
+	go func() {
+		for _, pd := range rs.pdbs {
+			pd.Close()
+		}
+		if cs, ok := e.DB.Config.ConnPool.(*gorm.PreparedStmtDB); ok {
+			cs.Close()
+		}
+		close(closed)
+	}()
+	select {
+	case <-closed:
+	case <-time.After(watchdog()):
+		res.closeHung = true
+		e.Drv.Passive = true
+		return res, nil
 	}
 	deadline := time.Now().Add(5 * time.Second) // only spent when something is still open: closers outside the scheduler need real time, much of it on a loaded machine
 	for {
@@ -680,6 +694,10 @@ func (p Prop) Run(ci interface{}, focus *core.Violation) *core.Outcome {
 			return o
 		}
 		o.Trouble = "run aborted: " + sr.Reason + " " + strings.Join(sr.Stuck, "; ")
+		return o
+	}
+	if res.closeHung {
+		report("deadlock", "blocked_in_gorm|Close after the run", "every task returned, yet PreparedStmtDB.Close called afterwards (nothing else running) did not return: a lock taken during the run was never released")
 		return o
 	}
 	if res.trouble != "" {
